@@ -19,7 +19,7 @@ Inductive val :=
 | WErr (k : Z)                       (* native error object: 1 TypeError, 2 ReferenceError *)
 | WBig.                              (* number outside |n| < 2^53: the model declines *)
 
-Inductive binop := PAdd | PSub | PMul | PLt | PSeq | PSne.
+Inductive binop := PAdd | PSub | PMul | PLt | PSeq | PSne | PGt | PLe | PGe.
 
 Inductive expr :=
 | XLit (v : val)
@@ -48,6 +48,9 @@ Inductive expr :=
 | XIn (p : str) (o : expr)
 | XLog (e : expr)                            (* host call *)
 | XEval (direct : bool) (body : list stmt)   (* eval("<body>"): direct (10.4.2, the caller's context) or indirect (global code) *)
+| XEvalVia (t : expr) (body : list stmt)     (* an indirect eval that is handed a this value: ge.call(t, "<body>"), ge.apply(t, ["<body>"]),
+                                                ge.bind(t)("<body>"), holder.run("<body>") with ge = holder.run = eval.  t is evaluated; the
+                                                eval code is global code all the same (15.1.2.1.1, 10.4.2 step 1: this = the global object) *)
 with stmt :=
 | JExpr (e : expr)
 | JVar (x : str) (init : option expr)
@@ -130,6 +133,8 @@ Definition s_prototype : str := [112; 114; 111; 116; 111; 116; 121; 112; 101].
 Definition s_constructor : str := [99; 111; 110; 115; 116; 114; 117; 99; 116; 111; 114].
 Definition s_length : str := [108; 101; 110; 103; 116; 104].
 Definition s_arguments : str := [97; 114; 103; 117; 109; 101; 110; 116; 115].
+Definition s_valueOf : str := [118; 97; 108; 117; 101; 79; 102].
+Definition s_toString : str := [116; 111; 83; 116; 114; 105; 110; 103].
 
 Definition init_state : state :=
   mkst [ mkobj [] (Some 1%nat) KObj;
@@ -302,6 +307,10 @@ Definition binval (o : binop) (a b : val) : option val :=
       | PAdd => Some (match tonum a, tonum b with Some n, Some m => mknum (n + m) | _, _ => WNaN end)
       | PSub => Some (match tonum a, tonum b with Some n, Some m => mknum (n - m) | _, _ => WNaN end)
       | PMul => Some (match tonum a, tonum b with Some n, Some m => mknum (n * m) | _, _ => WNaN end)
+      (* 11.8.1-11.8.4 over 11.8.5: a NaN operand makes the abstract comparison undefined, and all four operators false *)
+      | PGt => Some (match tonum a, tonum b with Some n, Some m => WBool (m <? n) | _, _ => WBool false end)
+      | PLe => Some (match tonum a, tonum b with Some n, Some m => WBool (negb (m <? n)) | _, _ => WBool false end)
+      | PGe => Some (match tonum a, tonum b with Some n, Some m => WBool (negb (n <? m)) | _, _ => WBool false end)
       | _ => Some (match tonum a, tonum b with Some n, Some m => WBool (n <? m) | _, _ => WBool false end)
       end
     else None
@@ -435,7 +444,9 @@ Inductive task :=
 | TLoop (c : ctx) (labs : list label) (kind : Z) (test upd : option expr) (body : stmt) (V : option val)
        (* kind 0: test, body, update (while/for); the do-while enters at the body (kind 1) *)
 | TForIn (c : ctx) (labs : list label) (x : str) (tg : option (expr * str)) (keys : list str) (obj : nat) (body : stmt) (V : option val)
-| TCases (c : ctx) (v : val) (cases : list (option expr * list stmt)) (rest : list (option expr * list stmt)).
+| TCases (c : ctx) (v : val) (cases : list (option expr * list stmt)) (rest : list (option expr * list stmt))
+| TPrim (v : val)                      (* ToPrimitive(v, hint Number): 9.1 + 8.12.8 [[DefaultValue]] through the object's valueOf / toString *)
+| TBin (op : binop) (a b : val).       (* the operator applied to two VALUES: conversions left operand first, then right (11.5, 11.6, 11.8.5 LeftFirst) *)
 
 Inductive answer :=
 | AVal (v : val) | AVals (l : list val) | ACompl (c : compl).
@@ -505,6 +516,15 @@ Fixpoint bind_params_lr (ps : list str) (args : list val) (acc : list (str * val
                 end
   end.
 
+(* 10.6 step 11.c: the indices are visited from the last one down and a name is mapped once, so of several
+   parameters with the same name only the LAST one (among those that received an argument) is aliased; the
+   earlier ones are plain data properties ([] = not mapped) *)
+Fixpoint map_names (ps : list str) : list str :=
+  match ps with
+  | [] => []
+  | p :: ps' => (if existsb (str_eqb p) ps' then [] else p) :: map_names ps'
+  end.
+
 Fixpoint args_props (i : Z) (args : list val) : list (str * val) :=
   match args with
   | [] => []
@@ -570,10 +590,7 @@ Definition step (t : task) (s : state) : R :=
         | None => Exn s (WErr 2)
         | Some old =>
             bindv (self (TExpr c e1) s) (fun s1 v =>
-              match binval op old v with
-              | Some nv => okv (put_ref s1 r x nv) nv
-              | None => Decline
-              end)
+              bindv (self (TBin op old v) s1) (fun s2 nv => okv (put_ref s2 r x nv) nv))
         end
     | XGet o p =>
         bindv (self (TExpr c o) s) (fun s1 vo =>
@@ -624,8 +641,7 @@ Definition step (t : task) (s : state) : R :=
           end)
     | XBin op a b =>
         bindv (self (TExpr c a) s) (fun s1 va =>
-          bindv (self (TExpr c b) s1) (fun s2 vb =>
-            match binval op va vb with Some v => okv s2 v | None => Decline end))
+          bindv (self (TExpr c b) s1) (fun s2 vb => self (TBin op va vb) s2))
     | XNot e1 => bindv (self (TExpr c e1) s) (fun s1 v => okv s1 (WBool (negb (truthy v))))
     | XTypeof e1 =>
         match e1 with
@@ -733,6 +749,34 @@ Definition step (t : task) (s : state) : R :=
         | Ok _ _ => Decline          (* return/break/continue cannot leave eval code *)
         | r => r
         end
+    | XEvalVia t body => bindv (self (TExpr c t) s) (fun s1 _ => self (TExpr c (XEval false body)) s1)
+    end
+  | TPrim v =>
+    match v with
+    | WRef l =>
+        (* 8.12.8 with hint Number: valueOf first, then toString; a method that is not callable is skipped, a result
+           that is not a primitive is discarded; neither gives a primitive: TypeError.  The built-in methods of
+           Object.prototype / Function.prototype are not in the model: an absent valueOf behaves like the built-in
+           one (it returns the object: skipped), an absent toString would produce a string: declined *)
+        let try_ts (s0 : state) : R :=
+          let ts := getp s0 l s_toString in
+          if is_callable s0 ts then
+            bindv (self (TCall ts v []) s0) (fun s2 r => match r with WRef _ | WErr _ => type_error s2 | _ => okv s2 r end)
+          else match ts with WUndef => Decline | _ => type_error s0 end in
+        let vo := getp s l s_valueOf in
+        if is_callable s vo then
+          bindv (self (TCall vo v []) s) (fun s1 r => match r with WRef _ | WErr _ => try_ts s1 | _ => okv s1 r end)
+        else try_ts s
+    | WErr _ => Decline
+    | _ => okv s v
+    end
+  | TBin op a b =>
+    match op with
+    | PSeq | PSne => match binval op a b with Some v => okv s v | None => Decline end
+    | _ =>
+      bindv (self (TPrim a) s) (fun s1 pa =>
+        bindv (self (TPrim b) s1) (fun s2 pb =>
+          match binval op pa pb with Some v => okv s2 v | None => Decline end))
     end
   | TArgs c l =>
     match l with
@@ -749,7 +793,7 @@ Definition step (t : task) (s : state) : R :=
         | KFun ps body e =>
             (* 10.4.3 + 10.5 *)
             let '(s1, al) := new_obj s (mkobj (args_props 0 args ++ [(s_length, WNum (Z.of_nat (length args)))]) (Some 1%nat)
-                                         (KArgs (length (envs s)) (firstn (length args) ps))) in
+                                         (KArgs (length (envs s)) (map_names (firstn (length args) ps)))) in
             let '(s2, ne) := new_env s1 (mkenv (bind_params_lr ps args []) (Some e) None) in
             let ds := hoist body in
             let s3 := inst_decls s2 ne ds in
